@@ -164,6 +164,23 @@ def cond_edges(fn):
     return out
 
 
+import os as _os
+RELEASE_SEMANTICS = _os.environ.get('VERIF_ASSERTS_GUARD', '') != '1'
+
+
+def is_assert_cond(fn, c):
+    """c is the condition of an assert() expansion: `(c) ? (void)0 : __assert_fail(...)` (facts are extracted with asserts visible)"""
+    cache = fn.__dict__.setdefault('_assert_conds', None)
+    if cache is None:
+        cache = set()
+        for n in fn.walk():
+            if n['k'] == 'ConditionalOperator' and 'else' in n and any((x.get('callee') or x.get('cs') or '') == '__assert_fail' for x in fn.walk(fn.stmts[n['else']]) if x['k'] == 'CallExpr'):
+                for x in fn.walk(fn.stmts[n['cond']]):
+                    cache.add(x['id'])
+        fn.__dict__['_assert_conds'] = cache
+    return c is not None and c.get('id') in cache
+
+
 def dominating_guards(fn, pos):
     """[(cond node, polarity)] such that every path from entry to pos takes that branch of that condition."""
     succ, entry, exit_ = fn.graph()
@@ -171,6 +188,8 @@ def dominating_guards(fn, pos):
     for bid, c, t, f in cond_edges(fn):
         if t == f:
             continue
+        if RELEASE_SEMANTICS and is_assert_cond(fn, c):
+            continue          # assert(c): compiled out in the shipped (NDEBUG) library, so it guards nothing
         end = (bid, len(fn.blocks[bid]['el']))
         for pol, removed in ((True, f), (False, t)):
             # remove the *other* edge: if pos becomes unreachable... no: pos must be unreachable when the required edge is removed
